@@ -5,7 +5,7 @@ import z3
 from pyvc import smt
 from pyvc.engine import Contract
 from pyvc.ctx import Undecided
-from pyvc.values import SV, Ref, Ext, ExcVal, BoundMethod, z, tag_of
+from pyvc.values import SV, Ref, Ext, ExcVal, BoundMethod, OptV, z, zn, unopt, isnone, tag_of
 from pyvc.smt import slen, at, slc, cat, unit, Int, Sq
 from . import spec
 from .abnf import abnf_shape, F, keybytes, fmt_fields, fmt_bad_fields
@@ -51,7 +51,8 @@ def mk_ws(c, sock="opt", connected="bool", keysrc="any", fire=None, skip=None, d
     s = c.fresh(("opt", ("ext", "sock")), "sock") if sock == "opt" else (c.new_ext("sock") if sock == "open" else None)
     c.setf(ws, "sock", s)
     c.setf(ws, "connected", c.fresh("bool", "connected") if connected == "bool" else connected)
-    ks = {"any": ("oneof", ["none", ("ext", "keysource"), ("ext", "keysource_str")]), "none": "none"}[keysrc]
+    ks = {"any": ("opt", ("oneof", [("ext", "keysource"), ("ext", "keysource_str")])), "bytes": ("opt", ("ext", "keysource")),
+          "none": "none"}[keysrc]
     c.setf(ws, "get_mask_key", c.fresh(ks, "ws_keysrc"))
     skipv = c.fresh("bool", "skip_utf8") if skip is None else skip
     firev = c.fresh("bool", "fire_cont") if fire is None else fire
@@ -80,7 +81,7 @@ def src_id(v):
 
 def lock_ok(c, ws, which="lock"):
     """Caller holds ws.<which> (or the connection was created with enable_multithread=False)."""
-    lk = c.getf(ws, which)
+    lk = unopt(c.getf(ws, which))
     if isinstance(lk, Ref):
         return True
     return any(l is lk for l in c.locks)
@@ -219,7 +220,7 @@ def install_send(e):
         return c.eq(z(c.ghost["wire"]), z(old.ghost["wire"]))
 
     def sock_none(c, old, a):
-        return z3.BoolVal(old.getf(a["self"], "sock") is None and old.getf(a["self"], "dispatcher") is None)
+        return z3.And(zn(old.getf(a["self"], "sock")), zn(old.getf(a["self"], "dispatcher")))
 
     def havoc_wire(c, a, old, k):
         c.ghost["wire"] = c.fresh("bytes", "wire")
@@ -229,7 +230,7 @@ def install_send(e):
                    doc="custom dispatcher send(sock, data): like the transport's send (all-or-part of data appended to the wire)"))
     e.add(Contract(K + "WebSocket._send", cases=[("builtin", _send_case(False)), ("dispatcher", _send_case(True))],
                    requires=lambda c, a: z3.BoolVal(lock_ok(c, a["self"], "lock") and tag_of(a["data"]) == "bytes"),
-                   ensures=lambda c, old, a, res: z3.And(_send_post(c, old, a, res), z3.Not(sock_none(c, old, a)) if c.getf(a["self"], "dispatcher") is None else True),
+                   ensures=lambda c, old, a, res: z3.And(_send_post(c, old, a, res), z3.Not(sock_none(c, old, a))),
                    result=lambda c, a: c.fresh(("oneof", ["int", "none"]), "sent"),
                    raises=[(X.WebSocketConnectionClosedException, None,
                             lambda c, old, a, exc: z3.And(wire_same(c, old, a, exc),
@@ -251,8 +252,12 @@ def install_send(e):
         return fmt_bad_fields(fin, r1, r2, r3, op, data)
 
     def used_source(c, old, a):
+        """identity of the key source that must be used: the connection's if set, else the frame's own."""
         ks = old.getf(a["self"], "get_mask_key")
-        return ks if ks is not None else old.getf(a["frame"], "get_mask_key")
+        own = src_id(unopt(old.getf(a["frame"], "get_mask_key")))
+        if unopt(ks) is None:
+            return z3.IntVal(own)
+        return z3.If(zn(ks), own, src_id(unopt(ks)))
 
     def sf_post(c, old, a, res):
         fin, r1, r2, r3, op, mv, data = fmt_fields(c, a["frame"], view=old)
@@ -260,7 +265,7 @@ def install_send(e):
         enc = spec.rfc_encode(fin, r1, r2, r3, op, mv, spec.keyfn(d0), data)
         return z3.And(z3.Not(fmt_bad(c, old, a)), c.eq(w1, cat(w0, enc)), z(res) == slen(enc),
                       z(c.ghost["draws"]) == d0 + z3.If(mv == 1, 1, 0),
-                      z3.Implies(mv == 1, z3.And(spec.srcfn(d0) == src_id(used_source(c, old, a)), slen(spec.keyfn(d0)) == 4)))
+                      z3.Implies(mv == 1, z3.And(spec.srcfn(d0) == used_source(c, old, a), slen(spec.keyfn(d0)) == 4)))
 
     def sf_fail(c, old, a, exc):
         # a failed transport write ends the connection; what reached the wire is a prefix of one encoding
@@ -286,8 +291,9 @@ def install_send(e):
         c.ghost["wire"] = c.fresh("bytes", "wire")
         c.ghost["tx_calls"] = c.fresh("int", "tx_calls")
         c.ghost["draws"] = c.fresh("int", "draws")
-        if old.getf(a["self"], "get_mask_key") is not None:
-            c.setf(a["frame"], "get_mask_key", old.getf(a["self"], "get_mask_key"))
+        ks = c.force(old.getf(a["self"], "get_mask_key"))
+        if ks is not None:
+            c.setf(a["frame"], "get_mask_key", ks)
     e.add(Contract(K + "WebSocket.send_frame", cases=[("frame-key-bytes", sf_case("keysource")), ("frame-key-str", sf_case("keysource_str"))],
                    requires=lambda c, a: z3.And(z3.Or(z(c.getf(a["frame"], "mask_value")) == 0, z(c.getf(a["frame"], "mask_value")) == 1),
                                                z3.BoolVal(tag_of(c.getf(a["frame"], "data")) == "bytes")),
@@ -310,7 +316,9 @@ def install_send2(e):
 
     def ws_source(c, old, a):
         ks = old.getf(a["self"], "get_mask_key")
-        return ks.id if ks is not None else 0
+        if unopt(ks) is None:
+            return z3.IntVal(0)
+        return z3.If(zn(ks), 0, src_id(unopt(ks)))
 
     def wire_grows_by(c, old, a, opcode, payload):
         w0, w1, d0 = z(old.ghost["wire"]), z(c.ghost["wire"]), z(old.ghost["draws"])
